@@ -233,6 +233,51 @@ class ParseID(PyContract):
                  z3.And(self.m.has(self.nm), as_int_term(value) == self.m.get(self.nm)))]
 
 
+
+# -- numeric literal tokens ---------------------------------------------------------------------------------
+# over-approximating models of the two str methods the literal path uses (enough for exception behaviour)
+def _rstrip(ex, st, o, pos, kw, n):
+    r = ex.fresh('rstripped', 'str')
+    st.pc.append(z3.And(z3.PrefixOf(r.t, term(o)),
+                        z3.Implies(z3.Length(term(o)) >= 1, z3.Or(z3.Length(r.t) >= 1, z3.BoolVal(True)))))
+    yield st, r
+
+
+def _lower(ex, st, o, pos, kw, n):
+    r = ex.fresh('lowered', 'str')
+    st.pc.append(z3.Length(r.t) == z3.Length(term(o)))
+    yield st, r
+
+
+R.method_models['str.rstrip'] = _rstrip
+R.method_models['str.lower'] = _lower
+
+
+class ParseNumberToken(PyContract):
+    """Constant nodes whose text starts with a digit -- every numeric token the lexer can produce (decimal,
+    octal, hex, binary integers with suffixes; decimal and hexadecimal floats) and, a fortiori, any text at all:
+    int() conversions of the text never let ValueError escape."""
+    name = 'cparser:Parser._parse_constant'
+    allowed = CFFI_ERRORS
+    label = "numeric literal token (any text starting with a digit)"
+
+    def setup(self, ex):
+        self.s = z3.String('token')
+        nd = node('Constant', 0, value=SV(self.s, 'str'), type=SV(z3.String('ctype'), 'str'))
+        d0 = z3.SubString(self.s, 0, 1)
+        assume = [z3.Length(self.s) >= 1, z3.StrToCode(d0) >= 48, z3.StrToCode(d0) <= 57]
+        return {'self': PObj('Parser', _int_constants=SymMap('int_constants')), 'exprnode': nd,
+                'partial_length_ok': False}, assume
+
+    def witness(self, ex, args):
+        return {'token': self.s}
+
+    def post(self, ex, args, kind, value, st):
+        if kind == 'raise':
+            return [('a rejected token is reported as CDefError', z3.BoolVal(getattr(value, 'cls', None) == 'CDefError'))]
+        return [('an accepted token evaluates to an integer', z3.BoolVal(ty_of(value) in ('int', 'bool')))]
+
+
 def c09_items():
     items = [('Parser._c_div', CDivC09())]
     for op in BINOPS + ['&&']:
@@ -254,4 +299,5 @@ def c30_items():
     for op in ['+', '-', '~']:
         items.append(('Parser._parse_constant', ParseUnaryOp(op)))
     items.append(('Parser._parse_constant', ParseID()))
+    items.append(('Parser._parse_constant', ParseNumberToken()))
     return [('src/cffi/cparser.py', R, q, c) for q, c in items]
